@@ -50,7 +50,7 @@ def finish(o: Outcome, spec: dict) -> int:
     pid = o.pid
     thms = o.audit.get("theorems", [])
     discharged = o.audit.get("discharged", [])
-    proof_ok = o.built and thms and len(discharged) == len(thms) and not o.audit.get("forbidden")
+    proof_ok = o.built and thms and len(discharged) == len(thms) and not o.audit.get("forbidden") and not o.audit.get("bad")
     dis = o.disagreements()
     known = common.known_findings()
     listed = {f["id"]: f for f in known.get("findings", []) if f["property"] == pid}
@@ -100,7 +100,8 @@ def finish(o: Outcome, spec: dict) -> int:
         "property_id": pid, "tier": o.tier, "seed": o.seed, "level": "proof",
         "coverage": {
             "obligations": max(len(thms), 0), "discharged": len(discharged) if proof_ok or thms else 0,
-            "checker_cmd": "cd lean && lake build && lake env lean <#print axioms of MosaikProofs.Properties." + pid + ">",
+            "checker_cmd": "cd lean && lake build && lake env lean <#print axioms of MosaikProofs.Properties." + pid + ">" +
+                           (" && lake env leanchecker MosaikProofs.Properties." + pid + " (" + str(o.audit.get("leanchecker")) + ")" if o.tier == "thorough" else ""),
             "trusted_base": TRUSTED_BASE,
             "theorems": thms,
             "evaluations": evals, "distinct_nontrivial": distinct,
@@ -140,7 +141,7 @@ def run_check(pid: str, tier: str, seed: int, replay: str | None = None) -> int:
         if replay:
             return registry.replay(pid, replay)
         o.built = lake_build(o.log)
-        o.audit = audit(pid, o.log) if o.built else {}
+        o.audit = audit(pid, o.log, deep=(tier == "thorough")) if o.built else {}
         driver = Driver() if o.built else None
         rng = random.Random(seed * 7919 + hash(pid) % 1000 if False else seed * 7919 + int(pid[1:]))
         try:
